@@ -3,5 +3,6 @@ CONSTANTS MaxDepth = 3
   Families <- FamTail
   StoreByCopy = TRUE
   TailKeepsSets = FALSE
+  SplitContinues = TRUE
 INVARIANT SeenIsExpected
 CHECK_DEADLOCK FALSE
